@@ -192,7 +192,14 @@ func (ex *Exec) unop(fr *frame, st *State, x *ssa.UnOp) []*State {
 			ex.raise(fr, st, runtimePanic(ex.pos(x), "nil pointer dereference"))
 			return nil
 		}
-		st.F.Env[x] = st.H.Load(p)
+		lv := st.H.Load(p)
+		if sv, isSlice := lv.(SliceV); isSlice {
+			if b, isBasic := x.Type().Underlying().(*types.Basic); isBasic && b.Info()&types.IsString != 0 {
+				// *(*string)(unsafe.Pointer(&b)): a string sharing the slice's backing array
+				lv = StringV{B: ex.sliceBytes(st, sv), Alias: sv.Obj}
+			}
+		}
+		st.F.Env[x] = lv
 		if g, ok := x.X.(*ssa.Global); ok && ex.RecordGlobals {
 			ex.Events = append(ex.Events, Event{Kind: "read", Obj: "global:" + g.Name(), Site: ex.pos(x)})
 		}
